@@ -93,6 +93,20 @@ def _bit_ops(cls, w, i):
     out["clr"] = shaped(r, lambda v: list(a.data) if isinstance(a.data, bytes) else ["?"])
     if r[0] == "ok" and (a.data != r[1] or a.dump()[-4:] != a.data):
         out["clr"] = f"unset_bit returned {r[1]!r} but data/dump carry {a.data!r}"
+    # a rejected operation changes nothing: the word, its serialisation and what the accessors report afterwards
+    for op in ("set", "clr"):
+        if isinstance(out[op], dict) and not out[op]["ok"]:
+            b = cls(wb)
+            _outcome(lambda: (b.set_bit if op == "set" else b.unset_bit)(i))
+            again = _outcome(lambda: (b.set_bit if op == "set" else b.unset_bit)(i))
+            if b.data != wb or b.dump()[-4:] != wb:
+                out[op] = f"the rejected {'set_bit' if op == 'set' else 'unset_bit'}({i}) changed the word {wb.hex()} to {b.data.hex() if isinstance(b.data, bytes) else b.data!r}"
+            elif again[0] != "rej":
+                out[op] = f"{'set_bit' if op == 'set' else 'unset_bit'}({i}) on {wb.hex()} is rejected the first time and {again[0]} the second time"
+            elif 0 <= i <= 31:
+                t = _outcome(lambda: b.is_bit_set(i))
+                if t[0] != "ok" or bool(t[1]) != (op == "set"):
+                    out[op] = f"after the rejected {'set_bit' if op == 'set' else 'unset_bit'}({i}) on {wb.hex()} is_bit_set({i}) gives {t[1]!r}"
     return out
 
 
